@@ -185,9 +185,12 @@ def expected_entries(p, members, x, y, w):
     return exp
 
 
-def compare_entries(b, exp, members):
-    """first mismatch between the result dictionary and the expected per-bin entries, or None"""
+def compare_entries(b, exp, members, scale=None):
+    """first mismatch between the result dictionary and the expected per-bin entries, or None.  ``scale`` (largest
+    |value| of the data, x and y) adds the rounding of ONE datum to the tolerance of every statistic: a mean or a
+    deviation of data 2459000.5 + k*1e-7 cannot be better than ulp(2459000.5) whatever the algorithm"""
     nb = len(members)
+    slack = 0.0 if scale is None else 16.0 * float(np.spacing(float(scale)))
     # fixed order: plain statistics first, then the weighted ones
     for key in sorted(exp, key=lambda k: (k.startswith("w"), k)):
         if key not in b:
@@ -204,7 +207,7 @@ def compare_entries(b, exp, members):
             if n == 0:
                 if g != e:
                     return "empty bin: %s[%d]=%r, documented sentinel %r" % (key, i, g, e)
-            elif not close(g, e):
+            elif not close(g, e) and not abs(g - e) <= slack:
                 return "%s of a %s bin: %s[%d]=%r, computed directly from the members %r: %r" % (
                     key, "single-member" if n == 1 else "multi-member", key, i, g, members[i], e)
     return None
@@ -261,7 +264,8 @@ def verify_binned(b, x, y, w, ref, level):
                 return "bin edge %s[%d]=%r, expected min+(i+%s)*binsize=%r" % (p + key, i, float(got[i]), off, e)
     if level == "edges":
         return None
-    msg = compare_entries(b, expected_entries(p, members, x, y, w), members)
+    scale = max([abs(float(v)) for v in x] + ([abs(float(v)) for v in y] if y is not None else []))
+    msg = compare_entries(b, expected_entries(p, members, x, y, w), members, scale)
     if msg:
         return msg
     if "rev" not in b:
@@ -311,7 +315,8 @@ def verify_nper(hist, rev, b, x, y, w, ref, level):
     if level == "lowhigh":
         return None
     p = "x" if y is not None else ""
-    msg = compare_entries(b, expected_entries(p, sl, x, y, w), sl)
+    scale = max([abs(float(v)) for v in x] + ([abs(float(v)) for v in y] if y is not None else []))
+    msg = compare_entries(b, expected_entries(p, sl, x, y, w), sl, scale)
     if msg:
         return "nperbin " + msg
     return None
@@ -527,6 +532,50 @@ def main(ctx):
 
     ctx.lattice("weight-scales", sunits, one, expand=expand_scale, bounds=dict(scales=WSCALES, data=[list(d) for d in LDATA]))
 
+    # ---------------------------------------------------------- part: special data
+    # (a) data dominated by a large offset (Julian dates 2459000.5 + k*1e-7, 1e9 + k*1e-3): members of a bin that are
+    #     distinct but equal to 1e-13 relative - a tie test with a relative tolerance takes them for equal;
+    # (b) statistics that hit the documented "empty bin" sentinel -9999 exactly: members -10000.5 and -9997.5 (mean
+    #     -9999), a single member -9999, second-variable and weighted means of -9999: emptiness is a matter of the
+    #     reverse indices, never of a value.
+    SPECIAL = [
+        ("jd-1e-7", tuple(2459000.5 + k * 1e-7 for k in (0, 1, 2, 5, 3, 4)), ("binsize", 1.0), None, None),
+        ("jd-1e-7-two-bins", tuple(2459000.5 + k * 1e-7 for k in (0, 1, 2)) + tuple(2459002.25 + k * 3e-7 for k in (1, 0, 2)), ("binsize", 1.0), None, None),
+        ("1e9+1e-3", tuple(1e9 + k * 1e-3 for k in (3, 1, 2, 0)), ("nbin", 1), None, None),
+        ("-1e6-1e-6", tuple(-1e6 - k * 1e-6 for k in (0, 1, 2, 3, 4)), ("nbin", 2), None, None),
+        ("mean-is-sentinel", (-10000.5, -9997.5, -9980.0, -9979.0), ("binsize", 10.0), -10005.0, None),
+        ("member-is-sentinel", (-9999.0, -9990.0, -9989.5), ("binsize", 5.0), -10000.0, None),
+        ("all-sentinel", (-9999.0, -9999.0, -9999.0, 2.0), ("nbin", 3), None, None),
+        ("median-is-sentinel", (-10001.0, -9999.0, -9998.0, 5.0), ("nbin", 2), None, None),
+    ]
+    SPECIAL_Y = {"plain": None, "y-sentinel": lambda n: tuple([-9999.0] * n), "y-mean-sentinel": lambda n: tuple((-10000.5, -9997.5)[i % 2] for i in range(n)),
+                 "y-jd": lambda n: tuple(2459000.5 + i * 1e-7 for i in range(n))}
+    SPECIAL_W = {"none": None, "ones": lambda n: tuple([1.0] * n), "cyc": lambda n: wcyc(n, 0)}
+    spunits = [(nm, yk, wk) for (nm, _, _, _, _) in SPECIAL for yk in SPECIAL_Y for wk in SPECIAL_W]
+
+    def expand_special(u):
+        nm, yk, wk = u
+        _, data, (bkind, bval), mn, mx = [t for t in SPECIAL if t[0] == nm][0]
+        n = len(data)
+        y = None if SPECIAL_Y[yk] is None else SPECIAL_Y[yk](n)
+        w = None if SPECIAL_W[wk] is None else SPECIAL_W[wk](n)
+        for eng in (True, False):
+            for entry in ("binner", "binner-split") + (("hist-more",) if y is None and w is None else ()) + (("hist-weights",) if y is None and w is not None else ()):
+                yield ("f8", data, w, y, bkind, bval, mn, mx, entry, eng)
+
+    ctx.lattice("special-data", spunits, one, expand=expand_special,
+                bounds=dict(data=[t[0] for t in SPECIAL], second_variable=sorted(SPECIAL_Y), weights=sorted(SPECIAL_W), engines=["compiled", "python"]))
+
+    def expand_special_nper(u):
+        nm, yk, wk = u
+        _, data, _b, mn, mx = [t for t in SPECIAL if t[0] == nm][0]
+        n = len(data)
+        y = None if SPECIAL_Y[yk] is None else SPECIAL_Y[yk](n)
+        w = None if SPECIAL_W[wk] is None else SPECIAL_W[wk](n)
+        for nper in (2, 3, n):
+            for ml in (True, False):
+                yield (data, w, y, nper, ml, None, None, "binner", True)
+
     # ---------------------------------------------------------- part: nperbin
     def one_nper(case, rec):
         data, w, y, nper, ml, mn, mx, entry, eng = case
@@ -668,6 +717,8 @@ def main(ctx):
                 yield (data, None, None, ("np", tname, nper), True, None, None, "hist-more", True)
 
     ctx.lattice("nperbin-long", units_nl, one_nper, expand=expand_nl, bounds=dict(lengths=[150, 97], nperbin="every value 1..N"))
+    ctx.lattice("special-data-nperbin", spunits, one_nper, expand=expand_special_nper,
+                bounds=dict(data=[t[0] for t in SPECIAL], second_variable=sorted(SPECIAL_Y), weights=sorted(SPECIAL_W), nperbin=[2, 3, "len"]))
 
     # -------------------------------------------------- part: two-symbol-long
     LL = ctx.pick(8, 12)
